@@ -57,7 +57,7 @@ mod pcmpestri_flags {
     /// Unsigned byte comparison
     pub const UBYTE_OPS: i32 = 0x00;
     /// Compare for equality
-    pub const CMP_EQUAL_ORDERED: i32 = 0x08;
+    pub const CMP_EQUAL_ORDERED: i32 = 0x0C;
     /// Return least significant index
     pub const LEAST_SIGNIFICANT: i32 = 0x00;
     /// Return most significant index
